@@ -42,79 +42,110 @@ def createRoots (s : Schema) : QDoc → Query → Outcome Query
   | .selset _ :: _, _ => fail' "Operations in queries must be named."
 
 mutual
-  /-- `resolve_selection` -/
-  def resolveSelection (s : Schema) (q : Query) (on : TypeId) (sels : List QSel) : Outcome (List Sel) :=
-    match on with
-    | .object oid => do
-      let o ← s.getObject oid
-      resolveObjectSels s q o.name o.fields sels
-    | .interface iid => do
-      let i ← s.getInterface iid
-      resolveObjectSels s q i.name i.fields sels
-    | .union _ =>
-      -- NOTE (known finding C06-no-selection): a composite field without a selection set is accepted;
-      -- the repository's own test fixtures rely on it, so it is recorded, not repaired.
-      resolveUnionSels s q sels
-    | _ =>
-      if sels.isEmpty then pure [] else fail' "Selection set on non-object, non-interface type."
+  /-- one item of `resolve_object_selection` (the dispatch of `resolve_selection` on the type of the
+      sub-selection is written out in place, so that the recursion is structural on the document) -/
+  def resolveObjectSel (s : Schema) (q : Query) (pname : String) (fields : List Nat) : QSel → Outcome Sel
+    | .field _alias name sub =>
+      if name == typenameField then
+        if !sub.isEmpty then fail' "Selection set on `__typename`." else pure .typename
+      else
+        match getFieldByName s fields name with
+        | .error e => .error e
+        | .ok none => fail' s!"No field named {name} on {pname}"
+        | .ok (some (fid, sf)) =>
+          match sf.ty.id with
+          | .object oid =>
+            match s.getObject oid with
+            | .error e => .error e
+            | .ok o => (resolveObjectSels s q o.name o.fields sub).map (Sel.field _alias fid)
+          | .interface iid =>
+            match s.getInterface iid with
+            | .error e => .error e
+            | .ok i => (resolveObjectSels s q i.name i.fields sub).map (Sel.field _alias fid)
+          | .union _ => (resolveUnionSels s q sub).map (Sel.field _alias fid)
+          | _ => if sub.isEmpty then pure (.field _alias fid []) else fail' "Selection set on non-object, non-interface type."
+    | .inline on sub =>
+      match on with
+      | none => panic' "missing type condition on inline fragment"
+      | some on =>
+        match s.findType on with
+        | none => fail' s!"Could not find type `{on}` referenced by inline fragment."
+        | some t =>
+          match t with
+          | .object oid =>
+            match s.getObject oid with
+            | .error e => .error e
+            | .ok o => (resolveObjectSels s q o.name o.fields sub).map (Sel.inline t)
+          | .interface iid =>
+            match s.getInterface iid with
+            | .error e => .error e
+            | .ok i => (resolveObjectSels s q i.name i.fields sub).map (Sel.inline t)
+          | .union _ => (resolveUnionSels s q sub).map (Sel.inline t)
+          | _ => if sub.isEmpty then pure (.inline t []) else fail' "Selection set on non-object, non-interface type."
+    | .spread name =>
+      match q.findFragment name with
+      | none => fail' s!"Could not find fragment `{name}` referenced by fragment spread."
+      | some fid => pure (.spread fid)
 
   /-- `resolve_object_selection` -/
   def resolveObjectSels (s : Schema) (q : Query) (pname : String) (fields : List Nat) : List QSel → Outcome (List Sel)
     | [] => pure []
-    | .field alias name sub :: rest => do
+    | x :: xs =>
+      match resolveObjectSel s q pname fields x with
+      | .error e => .error e
+      | .ok a => (resolveObjectSels s q pname fields xs).map (a :: ·)
+
+  /-- one item of `resolve_union_selection` -/
+  def resolveUnionSel (s : Schema) (q : Query) : QSel → Outcome Sel
+    | .field _ name sub =>
       if name == typenameField then
-        if !sub.isEmpty then fail' "Selection set on `__typename`." else
-        let r ← resolveObjectSels s q pname fields rest
-        pure (.typename :: r)
-      else
-        match ← getFieldByName s fields name with
-        | none => fail' s!"No field named {name} on {pname}"
-        | some (fid, sf) =>
-          let sub' ← resolveSelection s q sf.ty.id sub
-          let r ← resolveObjectSels s q pname fields rest
-          pure (.field alias fid sub' :: r)
-    | .inline on sub :: rest => do
-      let i ← resolveInline s q on sub
-      let r ← resolveObjectSels s q pname fields rest
-      pure (i :: r)
-    | .spread name :: rest =>
+        if !sub.isEmpty then fail' "Selection set on `__typename`." else pure .typename
+      else fail' "Invalid field selection on union field"
+    | .inline on sub =>
+      match on with
+      | none => panic' "missing type condition on inline fragment"
+      | some on =>
+        match s.findType on with
+        | none => fail' s!"Could not find type `{on}` referenced by inline fragment."
+        | some t =>
+          match t with
+          | .object oid =>
+            match s.getObject oid with
+            | .error e => .error e
+            | .ok o => (resolveObjectSels s q o.name o.fields sub).map (Sel.inline t)
+          | .interface iid =>
+            match s.getInterface iid with
+            | .error e => .error e
+            | .ok i => (resolveObjectSels s q i.name i.fields sub).map (Sel.inline t)
+          | .union _ => (resolveUnionSels s q sub).map (Sel.inline t)
+          | _ => if sub.isEmpty then pure (.inline t []) else fail' "Selection set on non-object, non-interface type."
+    | .spread name =>
       match q.findFragment name with
       | none => fail' s!"Could not find fragment `{name}` referenced by fragment spread."
-      | some fid => do
-        let r ← resolveObjectSels s q pname fields rest
-        pure (.spread fid :: r)
+      | some fid => pure (.spread fid)
 
   /-- `resolve_union_selection` -/
   def resolveUnionSels (s : Schema) (q : Query) : List QSel → Outcome (List Sel)
     | [] => pure []
-    | .field _ name sub :: rest => do
-      if name == typenameField then
-        if !sub.isEmpty then fail' "Selection set on `__typename`." else
-        let r ← resolveUnionSels s q rest
-        pure (.typename :: r)
-      else fail' "Invalid field selection on union field"
-    | .inline on sub :: rest => do
-      let i ← resolveInline s q on sub
-      let r ← resolveUnionSels s q rest
-      pure (i :: r)
-    | .spread name :: rest =>
-      match q.findFragment name with
-      | none => fail' s!"Could not find fragment `{name}` referenced by fragment spread."
-      | some fid => do
-        let r ← resolveUnionSels s q rest
-        pure (.spread fid :: r)
-
-  /-- `resolve_inline_fragment` -/
-  def resolveInline (s : Schema) (q : Query) (on : Option String) (sub : List QSel) : Outcome Sel :=
-    match on with
-    | none => panic' "missing type condition on inline fragment"
-    | some on =>
-      match s.findType on with
-      | none => fail' s!"Could not find type `{on}` referenced by inline fragment."
-      | some t => do
-        let sub' ← resolveSelection s q t sub
-        pure (.inline t sub')
+    | x :: xs =>
+      match resolveUnionSel s q x with
+      | .error e => .error e
+      | .ok a => (resolveUnionSels s q xs).map (a :: ·)
 end
+
+/-- `resolve_selection` (entry point for fragment definitions).
+    NOTE (known finding C06-no-selection): a composite type with an empty selection set is accepted;
+    the repository's own test fixtures rely on it, so it is recorded, not repaired. -/
+def resolveSelection (s : Schema) (q : Query) (on : TypeId) (sels : List QSel) : Outcome (List Sel) :=
+  match on with
+  | .object oid => do
+    let o ← s.getObject oid
+    resolveObjectSels s q o.name o.fields sels
+  | .interface iid => do
+    let i ← s.getInterface iid
+    resolveObjectSels s q i.name i.fields sels
+  | .union _ => resolveUnionSels s q sels
+  | _ => if sels.isEmpty then pure [] else fail' "Selection set on non-object, non-interface type."
 
 def resolveVariables (s : Schema) (op : Nat) (vars : List VarDef) : Outcome (List RVariable) :=
   vars.mapM fun v => do
